@@ -105,3 +105,16 @@ def heights(cell):
 
 def cell_class(d):
     return d["kind"] + ("+lh" if d.get("lefthanded") else "") + ("+rot" if d.get("quat") not in (None, [1.0, 0.0, 0.0, 0.0]) else "")
+
+
+# Hypothesis' first example of every test is the all-minimal one, and its shrinker steers towards "nice" numbers.
+# Quantities that must be *generic* (free Wyckoff parameters, anchor orbits, lattice constants) are therefore drawn
+# as u in [0,1] and shifted by fixed, pairwise incommensurate offsets: generic(draw, k) is generic even for u = 0.
+PHI = [0.6180339887, 0.4142135623, 0.7320508075, 0.2360679775, 0.6457513110, 0.3166247903, 0.8284271247, 0.1231056256,
+       0.5825756949, 0.9160797831, 0.0710678118, 0.3588989435, 0.7958315233, 0.2169905660, 0.4772255750, 0.6789083458,
+       0.8740078740, 0.1547005383, 0.5440037453, 0.2915026221, 0.9442719099, 0.0385164807, 0.7015621187, 0.3851648071]
+
+
+def generic(draw, k, lo=0.0, hi=1.0):
+    u = draw(st.floats(min_value=0.0, max_value=1.0, allow_nan=False, width=64))
+    return lo + (hi - lo) * ((u + PHI[k % len(PHI)] * (1 + (k // len(PHI)) * 0.137)) % 1.0)
